@@ -114,8 +114,29 @@ func (p *PathFilter) LocationMatches(loc *position.Location) bool {
 	return p.line >= loc.StartPos.Line && p.line <= loc.EndPos.Line
 }
 
+// Reports whether the filter's line is the line on which
+// the given suite or one of its enclosing suites starts.
+// Such a suite is matched as a whole by this filter,
+// so everything defined in it satisfies the filter.
+func (p *PathFilter) fullyMatchesSuite(suite *Suite) bool {
+	if p.line < 0 {
+		return false
+	}
+
+	for s := suite; s != nil; s = s.Parent {
+		loc := s.Location
+		if loc == nil {
+			continue
+		}
+		if p.line == loc.StartPos.Line && doublestar.MatchUnvalidated(p.pattern, loc.FilePath) {
+			return true
+		}
+	}
+	return false
+}
+
 func (p *PathFilter) CaseMatches(test *Case) bool {
-	return p.LocationMatches(test.Location())
+	return p.LocationMatches(test.Location()) || p.fullyMatchesSuite(test.Parent)
 }
 
 func (p *PathFilter) SuiteMatches(suite *Suite) SuiteMatch {
@@ -132,7 +153,7 @@ func (p *PathFilter) SuiteMatches(suite *Suite) SuiteMatch {
 	if p.line < 0 {
 		return SUITE_MATCH_TRUE
 	}
-	if p.line == loc.StartPos.Line {
+	if p.fullyMatchesSuite(suite) {
 		return SUITE_MATCH_FULL
 	}
 	if p.line >= loc.StartPos.Line && p.line <= loc.EndPos.Line {
